@@ -9,6 +9,36 @@ from ..util import cube_integral, maxabs, mono, monomials_tensor, monomials_tota
 # table precision of the hard-coded rules (relative to the domain measure)
 TABLE_TOL = {"Triangle": 1e-12, "Tetrahedron": 1e-12, "BazantOh": 5e-11}
 
+# number of points of the tabulated simplex rules (the rules of the cited tables: degree 1, 2, 3, 5); fields, state variables and
+# result arrays are sized by it, so "a richer rule under the same order label" is not the documented scheme
+NPOINTS_SIMPLEX = {"Triangle": {1: 1, 2: 3, 3: 4, 5: 7}, "Tetrahedron": {1: 1, 2: 4, 3: 5, 5: 14}}
+
+
+def grid_ranks(P):
+    """Integer grid index per axis of every point of a tensor-product rule: the rank of its coordinate among the distinct
+    abscissae of that axis (ascending)."""
+    P = np.round(np.asarray(P, dtype=float), 12)
+    return np.stack([np.searchsorted(np.unique(P[:, a]), P[:, a]) for a in range(P.shape[1])], axis=1)
+
+
+def lex_grid(n, d):
+    """Grid indices of the n**d points in tensor-product order, written out: first axis fastest."""
+    k = np.arange(n ** d)
+    return np.stack([(k // n ** a) % n for a in range(d)], axis=1)
+
+
+def expected_grid(cls, order, d, permute):
+    """The documented order of the points of a Gauss rule as integer grid indices, independent of the library: the point order of
+    the Lagrange cell (VTK layout, vmon/oracles/cells.py) where ``permute`` applies (Gauss-Legendre, two and three dimensions,
+    more than one point per axis), the plain tensor-product order (first axis fastest, abscissae ascending) everywhere else
+    (``permute=False``, one dimension, every Gauss-Lobatto rule: the order ``ArbitraryOrderLagrange(permute=False)``,
+    ``RegionLagrange(permute=False)`` and ``tools.extrapolate`` pair the rule with)."""
+    n1 = int(order) + (2 if "Lobatto" in cls else 1)
+    if bool(permute) and "Legendre" in cls and d >= 2 and int(order) >= 1:
+        from ..oracles.cells import vtk_lagrange_grid
+        return np.asarray(vtk_lagrange_grid(int(order), d))
+    return lex_grid(n1, d)
+
 
 def sphere_average(e):
     if any(p % 2 for p in e):
@@ -42,6 +72,10 @@ def validate_scheme(run, obj, arguments, label=None):
                     unit=label + ":inside")
         run.compare(mon, "scheme=%s clause=measure" % label, abs(w.sum() - 1), tol,
                     "%s: weights do not sum to one" % label, unit=label + ":measure")
+        # documented: n is the number of quadrature points
+        n_doc = int(arguments.get("n", 21))
+        run.compare(mon, "scheme=%s clause=point-count" % label, float(abs(len(w) - n_doc)), 0.5,
+                    "%s: %d points, documented are n = %d" % (label, len(w), n_doc), unit=label + ":npoints")
         worst, worst_e = 0.0, None
         P = np.vstack([pts, -pts])
         W = np.concatenate([w, w]) / 2
@@ -65,6 +99,12 @@ def validate_scheme(run, obj, arguments, label=None):
                     detail={"points": pts})
         run.compare(mon, "scheme=%s clause=measure" % label, abs(w.sum() - measure) / measure, tol,
                     "%s: weights do not sum to the simplex measure" % label, unit=label + ":measure")
+        n_doc = NPOINTS_SIMPLEX[cls].get(int(order))
+        if n_doc is None:
+            run.skip(mon, "order outside the documented family 1, 2, 3, 5: no tabulated point count")
+        else:
+            run.compare(mon, "scheme=%s clause=point-count" % label, float(abs(len(w) - n_doc)), 0.5,
+                        "%s: %d points, the tabulated rule of that order has %d" % (label, len(w), n_doc), unit=label + ":npoints")
         worst, worst_e = 0.0, None
         for e in monomials_total(dim, int(order)):
             err = abs((w * mono(pts, e)).sum() - simplex_integral(e)) / measure
@@ -108,6 +148,27 @@ def validate_scheme(run, obj, arguments, label=None):
                     "%s: monomial %s of per-axis degree <= %d integrated inexactly" % (label, worst_e, degree),
                     unit=label + ":exactness", config=label,
                     sample={"scheme": label, "npoints": len(w), "degree": degree, "rel_error": worst})
+        # documented: order = number of sample points per axis minus one (Gauss-Legendre) / minus two (Gauss-Lobatto); exactness up
+        # to the label's degree, inside and measure are all met by a richer rule as well
+        n1 = int(order) + (2 if "Lobatto" in cls else 1)
+        run.compare(mon, "scheme=%s clause=point-count" % label, float(abs(len(w) - n1 ** d)), 0.5,
+                    "%s: %d points, documented are %d per axis (%d)" % (label, len(w), n1, n1 ** d), unit=label + ":npoints")
+        # the order of the points (exactness, measure and the multiset of (point, weight) are blind to it; the element's shape
+        # functions, extrapolation and state variables are paired with the rule point by point)
+        if "Legendre" in cls and "permute" not in arguments:
+            run.skip(mon, "layout: the caller did not state permute")
+        else:
+            permute = bool(arguments.get("permute", False))
+            want = expected_grid(cls, order, d, permute)
+            got = grid_ranks(pts_in) if len(pts_in) else np.zeros((0, d), dtype=int)
+            if got.shape == want.shape and np.array_equal(got, want):
+                run.ok(mon, unit=label + ":layout", config=(label, "layout"))
+            else:
+                run.fail(mon, "scheme=%s clause=layout" % label,
+                         "%s: points are not in the documented order (%s)" % (
+                             label, "cell point order" if permute and "Legendre" in cls and d >= 2 and int(order) >= 1
+                             else "tensor-product order, first axis fastest"),
+                         detail={"grid_index_of_points": got, "documented": want}, unit=label + ":layout")
         if cls == "GaussLobatto" or boundary and "Lobatto" in cls:
             # Lobatto rules contain the end points
             has_ends = maxabs(np.abs(pts_in).max(0) - 1) if len(pts_in) else 1.0
